@@ -38,6 +38,7 @@ type Env struct {
 	Links    []*simnet.Link
 	LinkPlan func(l *simnet.Link)                   // applied to every new link (fault plan, chunking)
 	OnDial   func(l *simnet.Link)                   // e.g. spawn the server task
+	DialDeny func() error                           // permanent veto, evaluated on the dialling task (e.g. by task name)
 	DialErr  func(n int, addr string) error         // non-nil result makes the n-th dial fail
 	DialWait func(ctx context.Context, n int) error // may block (simulated) before the dial completes
 	Dials    []string
@@ -72,6 +73,12 @@ func (e *Env) dial(ctx context.Context, network, address string, ctxAware bool) 
 	if e.DialWait != nil {
 		if err := e.DialWait(ctx, n); err != nil {
 			e.S.Count("fault.dial-cancelled")
+			return nil, err
+		}
+	}
+	if e.DialDeny != nil {
+		if err := e.DialDeny(); err != nil {
+			e.S.Count("fault.dial-denied")
 			return nil, err
 		}
 	}
